@@ -32,7 +32,9 @@ TRIGGER_PHRASES = [
     "int64", "`np` or `tf`", "one of", "if true", "a str", "int or float", "Default: 3", "default is x",
 ]
 
-_RESERVED = {"return_type", "self", "cls", "argument_parser", "None", "True", "False"}
+# also excluded: names of the builtins that occur in annotations (a class attribute `int: int = 0` re-binds `int`
+# before its own annotation is evaluated - a shadowing the generator, not cdd, would be responsible for)
+_RESERVED = {"return_type", "self", "cls", "argument_parser", "None", "True", "False", "int", "str", "float", "bool", "list", "dict", "tuple", "bytes", "object", "complex", "set", "type", "id", "np", "tf"}
 
 
 def _name_ok(s):
